@@ -294,6 +294,7 @@ PROFILE_SYMPY = {"jump": True, "abs": True, "undef": False, "ufunc": False, "erf
 #: Mod, erf and the one-argument Heaviside - also written as heaviside(x, 0.5), which str() prints
 #: as Heaviside(x) - end in a numba TypingError)
 PROFILE_ARRAY = {"jump": False, "abs": False, "undef": True, "ufunc": False, "erf": False, "rpow": True,
+                 "constE": False,  # str(E) = "E" is not a name of the numpy namespace (loud TypingError)
                  "mod": False, "heav": True, "heav1": False, "atan2": True, "hypot": True,
                  "funcs": ["sin", "cos", "tan", "asin", "acos", "atan", "sinh", "cosh", "tanh", "asinh",
                            "acosh", "atanh", "exp", "exp2", "log", "sqrt", "cbrt", "floor"]}
@@ -377,7 +378,7 @@ class Builder:
         if r == "var" and self.leaves:
             return self.pick(self.leaves)
         if r == "const":
-            return ["const", self.pick(["pi", "E"])]
+            return ["const", self.pick(["pi", "E"] if self.p.get("constE", True) else ["pi"])]
         return self.num()
 
     def exact_arg(self):
